@@ -147,3 +147,32 @@ def count_down(n):
     for i in range(n - 1, -1, -1):
         out.append(i)
     return out
+
+
+def sort_list(xs):
+    return sorted(xs)
+
+
+def sort_set(s):
+    return sorted(s)
+
+
+def sort_desc(xs):
+    return sorted(xs, reverse=True)
+
+
+def sort_by_key(ps):
+    return sorted(ps, key=lambda p: p[1])
+
+
+def sort_inplace(xs):
+    xs.sort()
+    return xs
+
+
+def smallest(xs):
+    return sorted(xs)[0]
+
+
+def sort_dict(d):
+    return sorted(d)
